@@ -62,7 +62,17 @@ def opcodeTemplates : List (Nat × Nat × List Nat) := [
   (95, 0, [1, 1, 0, 0])    -- PUSH0
 ]
 
-/-- Decode the flat preorder encoding (fuel = length suffices). -/
+/-- the kids of a node: `n` sub-trees decoded one after the other by `uf` -/
+def unflatten.kidsLoop (uf : List Nat → Option (SV × List Nat)) (n : Nat) (ts : List Nat) (acc : List SV) :
+    Option (List SV × List Nat) :=
+  match n with
+  | 0 => some (acc.reverse, ts)
+  | n + 1 => match uf ts with
+    | some (kid, r) => unflatten.kidsLoop uf n r (kid :: acc)
+    | none => none
+
+/-- Decode the flat preorder encoding (fuel = length suffices).  Structural in the fuel, so the
+kernel can evaluate it (the pipeline table is decided by evaluation). -/
 def unflatten : Nat → List Nat → Option (SV × List Nat)
   | 0, _ => none
   | fuel + 1, k :: na :: rest =>
@@ -72,13 +82,7 @@ def unflatten : Nat → List Nat → Option (SV × List Nat)
       let attrs := rest.take na
       match rest.drop na with
       | nk :: rest2 =>
-        let rec kidsLoop (n : Nat) (ts : List Nat) (acc : List SV) : Option (List SV × List Nat) :=
-          match n with
-          | 0 => some (acc.reverse, ts)
-          | n + 1 => match unflatten fuel ts with
-            | some (kid, r) => kidsLoop n r (kid :: acc)
-            | none => none
-        (match kidsLoop nk rest2 [] with
+        (match unflatten.kidsLoop (unflatten fuel) nk rest2 [] with
          | some (kids, r) => some (.node kind attrs kids 0, r)
          | none => none)
       | [] => none
